@@ -1245,6 +1245,25 @@ impl Server {
         if self.bad {
             return self.bad;
         };
+
+        // The connection is being handed back without having gone through a successful
+        // `checkin_cleanup` (the client task returned early or panicked while holding it):
+        // it is still inside a transaction, in COPY mode, has unread data or un-reset
+        // session state. It cannot be given to another client, so discard it.
+        // Mirror connections are exempt, they replay client traffic verbatim.
+        if self.address.role != crate::config::Role::Mirror
+            && (self.in_transaction
+                || self.in_copy_mode
+                || self.data_available
+                || (self.cleanup_connections && self.cleanup_state.needs_cleanup()))
+        {
+            warn!(
+                "Server {:?} returned to the pool in an unclean state, discarding it",
+                self.address
+            );
+            return true;
+        }
+
         let cached_resolver = CACHED_RESOLVER.load();
         if cached_resolver.enabled() {
             if let Some(addr_set) = &self.addr_set {
